@@ -58,7 +58,7 @@ def run(chk, replay=None):
     else:
         loops = gen_loops(rng, nloops)
 
-    binary, blog = vlib.go_test_binary("main")
+    binary, blog = vlib.go_test_binary("main", only=["c20"])
     if binary is None:
         chk.notes.append("harness build failed: " + blog[-2000:])
         chk.fail("harness_build.txt", "correspondence harness (package main, TestVerifC20) does not build "
